@@ -379,7 +379,7 @@ def pLSCF_mpe(
         elif isinstance(order, int):
             sel = np.nanargmin(np.abs(Fn_pol[:, order] - fj))
             fns_at_ord_ii = Fn_pol[:, order][sel]
-            check = np.isclose(fns_at_ord_ii, sel_freq, rtol=rtol)
+            check = np.isclose(fns_at_ord_ii, fj, rtol=rtol)
             if not check.any():
                 logger.warning("Could not find any values")
                 order_out = order
@@ -394,7 +394,7 @@ def pLSCF_mpe(
         elif isinstance(order, list):
             sel = np.nanargmin(np.abs(Fn_pol[:, order[ii]] - fj))
             fns_at_ord_ii = Fn_pol[:, order[ii]][sel]
-            check = np.isclose(fns_at_ord_ii, sel_freq, rtol=rtol)
+            check = np.isclose(fns_at_ord_ii, fj, rtol=rtol)
             if not check.any():
                 logger.warning("Could not find any values")
                 order_out[ii] = order[ii]
